@@ -14,9 +14,14 @@ structure LockSite where
   calls : Nat         -- calls before the unlock is guaranteed
   rawUnlocks : Nat    -- unguarded Unlocks elsewhere in the function
   relocks : Nat       -- further Locks of the same mutex in the function
+  peerWaits : Nat := 0  -- calls that wait for the NF consumer's answer while the mutex is held
 deriving DecidableEq, Repr
 
 def LockSite.ok (s : LockSite) : Bool := decide (s.kind ≤ 2) && s.calls == 0 && s.rawUnlocks == 0 && s.relocks == 0
+
+/-- the mutex is never held across a request to the consumer: how long a subscriber stays locked does not depend
+    on how fast (or whether) its consumer answers a notification -/
+def LockSite.prompt (s : LockSite) : Bool := s.peerWaits == 0
 
 inductive Stmt where
   | lock | setFlag | deferUnlock | deferGuarded | guardedUnlock | unlock
